@@ -30,6 +30,7 @@ type vdef struct {
 	Mentions   []mention
 	IsRec      bool
 	Line       int
+	Theorem    string // text of the typing theorem emitted right after the definition under -typecheck ("" if none)
 }
 
 var typeCtors = map[string]bool{
@@ -68,7 +69,20 @@ func readV(src string) ([]vdef, error) {
 		return nil, err
 	}
 	var out []vdef
-	for _, it := range f.Defs() {
+	for _, it := range f.Items {
+		if it.Kind == "theorem" {
+			// Theorem X_t [Γ] : [Γ] ⊢ X : <type>.  — belongs to the definition X just before it; the
+			// identifiers of <type> are mentions made by what is emitted for the declaration of X
+			if n := len(out); n > 0 && it.Name == out[n-1].Name+"_t" && out[n-1].Theorem == "" {
+				d := &out[n-1]
+				d.Theorem = strings.TrimSpace(src[it.Pos:it.End])
+				d.Mentions = append(d.Mentions, theoremMentions(d.Theorem, d.Name)...)
+			}
+			continue
+		}
+		if it.Kind != "def" && it.Kind != "notation" {
+			continue
+		}
 		d := vdef{Name: it.Name, Kind: it.DefKind, TypeParams: it.TypeParams, Body: it.Body, Line: it.Line}
 		if it.Kind == "notation" {
 			d.Kind = "notation"
@@ -92,6 +106,31 @@ func readV(src string) ([]vdef, error) {
 		out = append(out, d)
 	}
 	return out, nil
+}
+
+// theoremMentions returns the identifiers of the type of a typing theorem (everything after "⊢ X :").
+func theoremMentions(text, defName string) []mention {
+	toks, _, err := gl.Lex(text)
+	if err != nil {
+		return nil
+	}
+	start := -1
+	for i, t := range toks {
+		if t.Kind == gl.TSym && t.Text == "⊢" {
+			start = i
+			break
+		}
+	}
+	if start < 0 || start+2 >= len(toks) || toks[start+1].Text != defName || toks[start+2].Text != ":" {
+		return nil
+	}
+	var out []mention
+	for _, t := range toks[start+3:] {
+		if t.Kind == gl.TIdent {
+			out = append(out, mention{Name: t.Text, InType: true, Where: "typecheck-theorem"})
+		}
+	}
+	return out
 }
 
 func collect(e gl.Expr, c walkCtx, bound map[string]bool, out *[]mention) {
@@ -259,6 +298,11 @@ func refKind(m mention, userName, userKind, targetKind string, isPkgName func(st
 	}
 	if isType {
 		switch m.Where {
+		case "typecheck-theorem":
+			if userKind == "const" || userKind == "var" {
+				return "constant-type(typecheck-theorem)"
+			}
+			return "signature-type(typecheck-theorem)"
 		case "load":
 			return "load-type"
 		case "store":
